@@ -207,6 +207,10 @@ def enc_rds(r):
 
 def enc_arg(a):
     k = a[0]
+    if k == "N":        # owner given as text: the same call for the model
+        k = "n"
+    if k == "I":        # type given as its mnemonic
+        return f"i{a[1]}"
     if k == "n":
         return "n" + enc_labels([bytes.fromhex(x) for x in a[1]])
     if k == "s":
@@ -237,6 +241,8 @@ def enc_op(op):
 
 def enc_zone(zone):
     """zone = [[labels_hex, [rds...]]...]"""
+    if isinstance(zone, str):
+        return zone         # already in protocol form (a dump)
     if not zone:
         return "-"
     return ";".join(enc_labels([bytes.fromhex(x) for x in n]) + "=" + "&".join(enc_rds(r) for r in rs) for n, rs in zone)
@@ -299,10 +305,18 @@ def dump_reader(z):
     return show_nodes(d.items())
 
 
+def name_text(labels_hex):
+    return nm(labels_hex).to_text()
+
+
 def py_arg(a):
     k = a[0]
     if k == "n":
         return nm(a[1])
+    if k == "N":
+        return name_text(a[1])
+    if k == "I":
+        return dns.rdatatype.to_text(a[1])
     if k == "s":
         return mk_rds(a[2], as_rrset_of=nm(a[1]))
     if k == "d":
@@ -315,21 +329,32 @@ def py_arg(a):
 
 
 class Hooks:
-    def __init__(self, txn):
+    def __init__(self, txn, log=None):
         self.armed = False
+        self.log = log if log is not None else []
         txn.check_put_rdataset(self.put)
         txn.check_delete_rdataset(self.delrds)
         txn.check_delete_name(self.delname)
 
+    @staticmethod
+    def _key(name):
+        try:
+            return enc_labels(Ref.canon(list(name.labels)))
+        except Exception:
+            return "?"
+
     def put(self, txn, name, rdataset):
+        self.log.append(f"put:{self._key(name)}:{show_rds(rdataset)}")
         if self.armed:
             raise Boom()
 
     def delrds(self, txn, name, rdtype, covers):
+        self.log.append(f"delrds:{self._key(name)}:{int(rdtype)}/{int(covers)}")
         if self.armed:
             raise Boom()
 
     def delname(self, txn, name):
+        self.log.append(f"delname:{self._key(name)}")
         if self.armed:
             raise Boom()
 
@@ -348,14 +373,34 @@ def call_op(txn, hooks, op):
     if k == "us":
         hooks.armed = bool(op[1])
         try:
-            txn.update_serial(op[2], bool(op[3]), nm(op[4]))
+            form = op[5] if len(op) > 5 else ""
+            if form == "d0":
+                txn.update_serial()
+            elif form == "d1":
+                txn.update_serial(op[2])
+            elif form == "d2":
+                txn.update_serial(op[2], bool(op[3]))
+            elif form == "kn":
+                txn.update_serial(name=nm(op[4]))
+            elif form == "t":
+                txn.update_serial(op[2], bool(op[3]), name_text(op[4]))
+            else:
+                txn.update_serial(op[2], bool(op[3]), nm(op[4]))
         finally:
             hooks.armed = False
         return "ok"
     if k == "get":
-        r = txn.get(nm(op[1]), op[2], op[3])
+        form = op[4] if len(op) > 4 else ""
+        if form == "t":
+            r = txn.get(name_text(op[1]), dns.rdatatype.to_text(op[2]), dns.rdatatype.to_text(op[3]))
+        elif form == "d":
+            r = txn.get(nm(op[1]), op[2])
+        else:
+            r = txn.get(nm(op[1]), op[2], op[3])
         return "ok:none" if r is None else "ok:" + show_rds(r)
     if k == "ex":
+        if len(op) > 2 and op[2] == "t":
+            return "ok:1" if txn.name_exists(name_text(op[1])) else "ok:0"
         return "ok:1" if txn.name_exists(nm(op[1])) else "ok:0"
     if k == "gn":
         node = txn.get_node(nm(op[1]))
@@ -363,10 +408,25 @@ def call_op(txn, hooks, op):
     if k == "ch":
         return "ok:f1" if txn.changed() else "ok:f0"
     if k == "dump":
-        names = list(txn.iterate_names())
+        # three entry points of iteration: each must refuse or answer like the others
+        outs = []
+        for f in (lambda: list(iter(txn)), lambda: list(txn.iterate_names()), lambda: list(txn.iterate_rdatasets())):
+            try:
+                outs.append(("ok", f()))
+            except Hang:
+                raise
+            except Exception as e:
+                outs.append(("err", e))
+        if all(o[0] == "err" for o in outs) and len({family(o[1]) for o in outs}) == 1:
+            raise outs[0][1]
+        if any(o[0] == "err" for o in outs):
+            return "ok:ITER-ENTRY-POINTS-DISAGREE:" + ",".join(o[0] if o[0] == "ok" else family(o[1]) for o in outs)
+        via_iter, names, pairs = outs[0][1], outs[1][1], outs[2][1]
         d = {n: [] for n in names}
-        for n, rds in txn.iterate_rdatasets():
+        for n, rds in pairs:
             d.setdefault(n, []).append(rds)
+        if [(n, id(r)) for n, r in via_iter] != [(n, id(r)) for n, r in pairs]:
+            return "ok:ITER-DIFFERS-FROM-iterate_rdatasets"
         return "ok:[" + show_nodes(d.items()) + "]"
     if k == "commit":
         txn.commit()
@@ -377,13 +437,21 @@ def call_op(txn, hooks, op):
     raise ValueError(k)
 
 
-def run_impl(z, c, ops, exc, uncaught_last=False):
+def open_txn(z, c):
+    if c["ro"] == 1:
+        return z.reader()
+    if c["ro"] == 2:
+        return z.writer(True)
+    return z.writer()
+
+
+def run_impl(z, c, ops, exc, uncaught_last=False, log=None):
     """run `ops` in one transaction; every call's exception is caught (user try/except) except, with
     `uncaught_last`, the last one; leave through Boom if `exc`.  Returns the trace."""
     trace = []
     try:
-        with (z.reader() if c["ro"] else z.writer()) as txn:
-            hooks = Hooks(txn)
+        with open_txn(z, c) as txn:
+            hooks = Hooks(txn, log)
             for i, op in enumerate(ops):
                 if uncaught_last and i == len(ops) - 1:
                     try:
@@ -428,14 +496,15 @@ def ref_kind(t, c):
 
 class Ref:
     def __init__(self, c):
-        self.ro = bool(c["ro"])
+        self.ro = c["ro"] == 1
+        self.log = []
         self.ended = False
         self.zone = {}
         for n, rs in c["zone"]:
             k = self.canon([bytes.fromhex(x) for x in n])
             for cls, t, cv, ttl, vals in rs:
                 self.zone[(k, t, cv)] = (ttl, frozenset(vals))
-        self.ver = dict(self.zone)
+        self.ver = {} if c["ro"] == 2 else dict(self.zone)
         self.touched = False
 
     @staticmethod
@@ -470,31 +539,35 @@ class Ref:
         self.ver[(k, t, c)] = (ttl, frozenset(vals))
         self.touched = True
 
+    def keystr(self, labels):
+        try:
+            return enc_labels(self.canon(labels))
+        except RefErr:
+            return "?"
+
     def store(self, labels, r, merge, veto):
         cls, t, c, ttl, vals = r
         if cls != IN:
             raise RefErr("ValueError")
         if t == SOA and not self.is_origin(labels):
             raise RefErr("ValueError")
+        nttl, nvals = ttl, frozenset(vals)
         if merge:
             k = self.canon(labels)
-            if veto:
-                raise RefErr("Veto")
-        else:
-            if veto:
-                raise RefErr("Veto")
-            k = self.canon(labels)
-        old = self.ver.get((k, t, c)) if merge else None
-        if old is not None:
-            ottl, ovals = old
-            nttl = min(ottl, ttl) if ovals else ttl
-            if t in REF_SINGLETONS:
-                nvals = frozenset(vals[-1:]) if vals else ovals
-            else:
-                nvals = ovals | frozenset(vals)
-            self.put(k, t, c, nttl, nvals)
-        else:
-            self.put(k, t, c, ttl, vals)
+            old = self.ver.get((k, t, c))
+            if old is not None:
+                ottl, ovals = old
+                nttl = min(ottl, ttl) if ovals else ttl
+                if t in REF_SINGLETONS:
+                    nvals = frozenset(vals[-1:]) if vals else ovals
+                else:
+                    nvals = ovals | frozenset(vals)
+        # the check hooks see the owner as given and the rdataset about to be stored
+        self.log.append(f"put:{self.keystr(labels)}:{show_rds_abs(IN, t, c, nttl, nvals)}")
+        if veto:
+            raise RefErr("Veto")
+        k = self.canon(labels)
+        self.put(k, t, c, nttl, nvals)
 
     def step(self, op):
         """returns the expected canonical result string, or raises RefErr(family); None = no opinion"""
@@ -503,7 +576,7 @@ class Ref:
             if self.ended:
                 raise RefErr("AlreadyEnded")
             self.ended = True
-            if k == "commit" and not self.ro:
+            if k == "commit" and not self.ro and self.touched:
                 self.zone = dict(self.ver)
             return "ok"
         if self.ended:
@@ -527,9 +600,11 @@ class Ref:
                     kk = self.canon(labels)
                     if not self.has(kk):
                         raise RefErr("DeleteNotExact")
+                    self.log.append(f"delname:{self.keystr(labels)}")
                     if veto:
                         raise RefErr("Veto")
                 else:
+                    self.log.append(f"delname:{self.keystr(labels)}")
                     if veto:
                         raise RefErr("Veto")
                     kk = self.canon(labels)
@@ -545,6 +620,7 @@ class Ref:
                     if exact:
                         raise RefErr("DeleteNotExact")
                     return "ok"
+                self.log.append(f"delrds:{enc_labels(kk)}:{sel[1]}/{sel[2]}")
                 if veto:
                     raise RefErr("Veto")
                 del self.ver[key]
@@ -562,9 +638,13 @@ class Ref:
             ottl, ovals = self.ver[key]
             if exact and not frozenset(vals) <= ovals:
                 raise RefErr("DeleteNotExact")
+            rest = ovals - frozenset(vals)
+            if rest:
+                self.log.append(f"put:{enc_labels(kk)}:{show_rds_abs(IN, t, c, ottl, rest)}")
+            else:
+                self.log.append(f"delrds:{enc_labels(kk)}:{t}/{c}")
             if veto:
                 raise RefErr("Veto")
-            rest = ovals - frozenset(vals)
             if rest:
                 self.put(kk, t, c, ottl, rest)
             else:
@@ -612,7 +692,7 @@ class Ref:
     def leave(self, exc):
         if not self.ended:
             self.ended = True
-            if not exc and not self.ro:
+            if not exc and not self.ro and self.touched:
                 self.zone = dict(self.ver)
 
     @staticmethod
@@ -624,8 +704,13 @@ class Ref:
         return ";".join(sorted(enc_labels(k) + "=" + "&".join(sorted(v)) for k, v in d.items())) if d else "-"
 
 
+def _plain(args):
+    return [(["n", a[1]] if a[0] == "N" else ["i", a[1]] if a[0] == "I" else a) for a in args]
+
+
 def canonical_store_args(args):
     """(labels, rds) of a well-formed add/replace argument list"""
+    args = _plain(args)
     a0 = args[0]
     if a0[0] == "s":
         if not a0[2][4]:
@@ -639,6 +724,7 @@ def canonical_store_args(args):
 
 
 def canonical_delete_args(args):
+    args = _plain(args)
     a0 = args[0]
     if a0[0] == "s":
         return [bytes.fromhex(x) for x in a0[1]], ("rds", a0[2])
@@ -689,7 +775,7 @@ def non_native(c, labels_hex):
 
 def op_owner(op):
     if op[0] in ("add", "rep", "del", "dex"):
-        return op[2][0][1] if op[2] and op[2][0][0] in ("n", "s") else None
+        return op[2][0][1] if op[2] and op[2][0][0] in ("n", "N", "s") else None
     if op[0] == "us":
         return op[4]
     return None
@@ -768,16 +854,16 @@ def eval_hist(ctx: Ctx, c: dict):
         return
     # --- a transaction can be opened at all
     try:
-        with (z.reader() if c["ro"] else z.writer()) as txn:
+        with open_txn(z, c) as txn:
             pass
     except Exception as e:
-        if c["cls"] == "btree" and not c["zone"] and not c["ro"] and isinstance(e, ValueError):
+        if c["cls"] == "btree" and not c["zone"] and c["ro"] == 0 and isinstance(e, ValueError):
             ctx.fail("C10/writer/ValueError/never-written-btree-zone",
                      "dns.btreezone.Zone(origin).writer() raises ValueError('original BTree is not immutable') until a first replacement transaction has committed", rep)
         else:
             ctx.fail(f"C10/writer/raises/{c['cls']}", f"opening the transaction raised {type(e).__name__}: {e}", rep)
         return
-    ctx.count(f"cls.{c['cls']}.rel{c['rel']}.{'ro' if c['ro'] else 'rw'}")
+    ctx.count(f"cls.{c['cls']}.rel{c['rel']}.{['rw', 'ro', 'replace'][c['ro']]}")
 
     def fresh():
         return build_zone(c)
@@ -833,7 +919,8 @@ def eval_hist(ctx: Ctx, c: dict):
             z = fresh()
 
     # --- the full history, committed by leaving the block normally
-    trace = run_impl(z, c, ops, False)
+    hook_log = []
+    trace = run_impl(z, c, ops, False, log=hook_log)
     post = dump_zone(z)
     ctx.corr(line_of("run", c, flags, ops, False), " ".join(trace) + " | " + post, c)
     rd = dump_reader(z)
@@ -879,6 +966,38 @@ def eval_hist(ctx: Ctx, c: dict):
             ctx.fail(f"C10/commit/content-differs/{c['cls']}", f"committed zone {got} (empty nodes {empties}), the reference model says {expect}", rep)
         # the Lean reference model must agree with the Python reference (tie between the oracle and the theorems' spec)
         ctx.corr(line_of("spec", c, flags, ops, False), " ".join(ref_trace) + " | " + native_dump(c, ref.zone), c)
+        # every low-level mutation passes the registered check hooks first, with the owner and the rdataset / type at stake
+        if hook_log != ref.log:
+            i = next((j for j in range(min(len(hook_log), len(ref.log))) if hook_log[j] != ref.log[j]), min(len(hook_log), len(ref.log)))
+            ctx.fail(f"C10/hooks/calls-differ-from-reference/{c['cls']}",
+                     f"check hook call {i}: saw {hook_log[i:i + 1]}, the reference model expects {ref.log[i:i + 1]} "
+                     f"({len(hook_log)} calls seen, {len(ref.log)} expected)", rep)
+        # a second transaction on the zone the first one left
+        if c.get("ops2"):
+            c2 = dict(c, ro=0)
+            trace2 = run_impl(z, c2, c["ops2"], False)
+            post2 = dump_zone(z)
+            ctx.corr(line_of("run", c2, flags, c["ops2"], False, zone=post), " ".join(trace2) + " | " + post2, c)
+            ref2 = Ref(c2)
+            ref2.zone = dict(ref.zone)
+            ref2.ver = dict(ref.zone)
+            for i, op in enumerate(c["ops2"]):
+                try:
+                    e = ref2.step(op)
+                except RefErr as x:
+                    e = "err:" + x.fam
+                g = abs_result(c, trace2[i]) if i < len(trace2) else "missing"
+                if e is not None and g != e:
+                    ctx.fail(f"C10/second-transaction/{op[0]}/result-differs-from-reference",
+                             f"second transaction, operation {i} {enc_op(op)} returned {g}, the reference model says {e} (zone class {c['cls']})", rep)
+                    break
+            else:
+                ref2.leave(False)
+                got2, emp2 = abs_dump(c, post2)
+                if got2 != Ref.show(ref2.zone) or emp2:
+                    ctx.fail(f"C10/second-transaction/content-differs/{c['cls']}",
+                             f"after a second committed transaction the zone is {got2} (empty nodes {emp2}), the reference model says {Ref.show(ref2.zone)}", rep)
+            ctx.count("second-txn")
 
 
 def native_dump(c, m):
@@ -1025,7 +1144,7 @@ def gen_store_args(rng, c, owner, t, cv, ttl, vals, form=None):
 
 
 def gen_hist(rng, malformed=False):
-    c = {"kind": "hist", "cls": rng.choice(["plain", "versioned", "btree"]), "rel": rng.below(2), "ro": 1 if rng.chance(1, 12) else 0,
+    c = {"kind": "hist", "cls": rng.choice(["plain", "versioned", "btree"]), "rel": rng.below(2), "ro": rng.choice([0] * 10 + [1, 2]),
          "salt": rng.below(3)}
     policy = rng.choice([0, 0, 1, 2])
     # initial zone through the reference (so that it is consistent)
@@ -1046,8 +1165,53 @@ def gen_hist(rng, malformed=False):
     c["zone"] = [[hexl(native_name(c, rel).labels), rs] for rel, rs in zone.items()]
     # operations, steering by the reference state
     ref = Ref(c)
-    ops = []
     nops = rng.choice([0, 1, 2, 3, 4, 5, 6, 8, 10, 12, 16, 25]) if not rng.chance(1, 3) else rng.range(3, 9)
+    c["ops"] = gen_ops(rng, c, ref, nops, policy, malformed)
+    if malformed:
+        c["malformed"] = 1
+    elif rng.chance(1, 3) and c["ro"] != 1 and not any(o[0] in ("commit", "rollback") for o in c["ops"]):
+        # a second transaction on what the first one committed
+        ref.leave(False)
+        ref2 = Ref(dict(c, ro=0))
+        ref2.zone = dict(ref.zone)
+        ref2.ver = dict(ref.zone)
+        c["ops2"] = gen_ops(rng, c, ref2, rng.range(1, 5), policy, False)
+    return c
+
+
+def variant_form(rng, op):
+    """the same call through another route of the API: owner as text, type as mnemonic, default arguments"""
+    k = op[0]
+    if k in ("add", "rep", "del", "dex") and op[2] and op[2][0][0] == "n" and rng.chance(1, 6):
+        args = [["N", op[2][0][1]]] + [list(a) for a in op[2][1:]]
+        if k in ("del", "dex"):
+            args = [args[0]] + [(["I", a[1]] if a[0] == "i" and rng.chance(2, 3) else a) for a in args[1:]]
+        return [k, op[1], args]
+    if k in ("del", "dex") and len(op[2]) >= 2 and op[2][1][0] == "i" and rng.chance(1, 5):
+        return [k, op[1], [op[2][0]] + [["I", a[1]] if a[0] == "i" else a for a in op[2][1:]]]
+    if k == "us" and rng.chance(1, 3):
+        f = rng.choice(["d0", "d1", "d2", "kn", "t"])
+        if f == "d0":
+            return ["us", op[1], 1, 1, [], "d0"]
+        if f == "d1":
+            return ["us", op[1], op[2], 1, [], "d1"]
+        if f == "d2":
+            return ["us", op[1], op[2], op[3], [], "d2"]
+        if f == "kn":
+            return ["us", op[1], 1, 1, op[4], "kn"]
+        return op[:5] + ["t"]
+    if k == "get":
+        if op[3] == 0 and rng.chance(1, 4):
+            return op[:4] + ["d"]
+        if rng.chance(1, 6):
+            return op[:4] + ["t"]
+    if k == "ex" and rng.chance(1, 5):
+        return op[:2] + ["t"]
+    return op
+
+
+def gen_ops(rng, c, ref, nops, policy, malformed):
+    ops = []
     for _ in range(nops):
         x = rng.below(100)
         existing = sorted(ref.ver.keys())
@@ -1116,6 +1280,7 @@ def gen_hist(rng, malformed=False):
             op = ["get", odd_name(rng), t, cv]
         if op[0] in ("add", "rep", "del", "dex") and rng.chance(1, 40):
             op = empty_variant(op)
+        op = variant_form(rng, op)
         if malformed and rng.chance(1, 3):
             op = mutate_op(rng, op)
         ops.append(op)
@@ -1123,10 +1288,7 @@ def gen_hist(rng, malformed=False):
             ref.step(op)
         except Exception:
             pass
-    c["ops"] = ops
-    if malformed:
-        c["malformed"] = 1
-    return c
+    return ops
 
 
 def empty_variant(op):
@@ -1146,7 +1308,19 @@ def mutate_op(rng, op):
     k = op[0]
     if k in ("add", "rep", "del", "dex"):
         args = [list(a) for a in op[2]]
-        m = rng.below(12)
+        m = rng.below(15)
+        if m >= 12:
+            # two faults at once (the order of the checks decides the exception): wrong class or a non-origin SOA, plus a surplus argument
+            if m == 12:
+                args = [a if a[0] != "r" else ["r", CH, a[2], a[3], a[4]] for a in args]
+                args = [a if a[0] != "d" else ["d", [CH] + a[1][1:]] for a in args]
+                args = [a if a[0] != "s" else ["s", a[1], [CH] + a[2][1:]] for a in args]
+            elif m == 13 and args and args[0][0] in ("n", "N"):
+                args = [["n", hexl((b"c",))], ["d", [IN, SOA, 0, 5, [7]]]]
+            else:
+                args = [a if a[0] != "i" else ["i", 2 ** 32] for a in args]
+            args.append(rng.choice([["x"], ["i", 5], ["r", IN, A, 0, 1]]))
+            return [k, op[1], args]
         if m == 0:
             args.append(rng.choice([["x"], ["i", 5], ["n", hexl((b"a",))], ["d", [IN, A, 0, 5, [1]]]]))
         elif m == 1 and args:
@@ -1181,7 +1355,7 @@ def mutate_op(rng, op):
 
 
 def hist_key(c):
-    return json.dumps([c["cls"], c["rel"], c["ro"], c["zone"], c["ops"]], sort_keys=True)
+    return json.dumps([c["cls"], c["rel"], c["ro"], c["zone"], c["ops"], c.get("ops2")], sort_keys=True)
 
 
 def generate(ctx: Ctx, scale: int, rng):
